@@ -859,7 +859,18 @@ func (vc *FnVC) doMapUpdate(x *ssa.MapUpdate, st *State) {
 
 // mapHas / mapGet: lookups with Go semantics (absent key reads as zero; nil map is empty).
 func (vc *FnVC) mapHas(st *State, mt *types.Map, m, k string) string {
-	mh, _, _, _ := vc.mapComps(mt)
+	mh, _, ks, _ := vc.mapComps(mt)
+	if !strings.Contains(k, "q$") && !strings.Contains(k, "qk!") && len(vc.keyTerms[ks]) < 200 {
+		dup := false
+		for _, x := range vc.keyTerms[ks] {
+			if x == k {
+				dup = true
+			}
+		}
+		if !dup {
+			vc.keyTerms[ks] = append(vc.keyTerms[ks], k)
+		}
+	}
 	return and(not(eq(m, "0")), sel(sel(vc.cur(st, mh), m), k))
 }
 
